@@ -74,8 +74,8 @@ def run(index: RepoIndex, rep) -> None:
     m = index.func(SPACES, 'ActionSpace.int_to_action')
     p = m.node.args.args[1].arg
     b = m.body()
-    rep.check(len(b) == 1 and isinstance(b[0], ast.Return)
-              and src(b[0].value) == f'self.actions[{p}]', 'C20.R1', SPACES,
+    from ..view import value_text
+    rep.check(value_text(index, m) == f'self.actions[{p}]', 'C20.R1', SPACES,
               'ActionSpace.int_to_action', m.node.lineno, src(b[-1]),
               'int_to_action(i) is not actions[i]', 'int_to_action')
     for prop, want in (('observation', 'self.outer_env.observation'),
@@ -84,7 +84,7 @@ def run(index: RepoIndex, rep) -> None:
         if m is None:
             raise AnalysisError(f'anchor vanished: GymEnvironment.{prop}')
         b = m.body()
-        rep.check(len(b) == 1 and isinstance(b[0], ast.Return) and src(b[0].value) == want,
+        rep.check(value_text(index, m) == want,
                   'C20.R1', GYM, f'GymEnvironment.{prop}', m.node.lineno, src(b[-1]),
                   f'GymEnvironment.{prop} is not {want}', f'property {prop}')
     # step
@@ -136,8 +136,7 @@ def run(index: RepoIndex, rep) -> None:
     sw = index.cls(GYM, 'GymStateWrapper')
     m = sw.methods.get('observation')
     b = m.body() if m else []
-    rep.check(m is not None and len(b) == 1 and isinstance(b[0], ast.Return)
-              and src(b[0].value) == 'self.env.state', 'C20.R2', GYM,
+    rep.check(m is not None and value_text(index, m) == 'self.env.state', 'C20.R2', GYM,
               'GymStateWrapper.observation', m.node.lineno if m else sw.node.lineno,
               src(b[-1]) if b else '', 'the state wrapper\'s observation is not env.state',
               'wrapper observation')
@@ -238,8 +237,7 @@ def run(index: RepoIndex, rep) -> None:
               'the gym action space is not Discrete(number of actions)', 'init action space')
     na = index.func(SPACES, 'ActionSpace.num_actions')
     b = na.body()
-    rep.check(len(b) == 1 and isinstance(b[0], ast.Return)
-              and src(b[0].value) == 'len(self.actions)', 'C20.R4', SPACES,
+    rep.check(value_text(index, na) == 'len(self.actions)', 'C20.R4', SPACES,
               'ActionSpace.num_actions', na.node.lineno, src(b[-1]),
               'num_actions is not len(actions)', 'num_actions')
 
